@@ -340,7 +340,9 @@ def playback(src, hdir, h, geom, tdir, logdir, test_src=None):
         return None, test_src, "cannot find test name"
     shutil.copyfile(os.path.join(HARNESS_DIR, h.crate, h.module + ".rs"), hfile)
     with open(hfile, "a") as f:
-        f.write("\n" + test_src + "\n")
+        # (llfree is no_std: name Vec explicitly; std is linked in test builds)
+        f.write("\n#[cfg(test)]\nmod verif_playback {\n    #![allow(unused_imports)]\n    use super::*;\n    extern crate std;\n"
+                "    use std::vec::Vec;\n    use std::vec;\n" + test_src + "\n}\n")
     results = {}
     alltxt = ""
     # (`cargo kani playback` has no --release; both profiles of this workspace keep overflow checks on)
